@@ -530,12 +530,16 @@ def main(check: Check, argv):
 
     # 5 known findings
     known_seen = {}
+    known_absorbed = {}
     new_viol = []
     for v in all_viol:
         if v.key is not None and v.key in known:
             known_seen.setdefault(v.key, v)
+            known_absorbed[v.key] = known_absorbed.get(v.key, 0) + 1
         else:
             new_viol.append(v)
+    if known_absorbed:
+        log("oracle violations classified as known findings: " + ", ".join(f"{k}={n}" for k, n in sorted(known_absorbed.items())))
     known_replayed = 0
     for key, what in known.items():
         fpath = os.path.join(VERIF, "findings", key + ".json")
@@ -625,6 +629,7 @@ def main(check: Check, argv):
             "disagreements": len(all_dis),
             "known_findings_listed": sorted(known),
             "known_findings_replayed": known_replayed,
+            "known_findings_absorbed": known_absorbed,
             "failing_input_search_cases": searched,
         },
         "assumptions": check.assumptions,
